@@ -275,8 +275,100 @@ def probe_equal_machines(seed, cases=40):
     return fails
 
 
+ODD_IDS = ["order.paid", "give-up", "class", "1st", "été", "a:b", "x/y", "with", "None", "go!", "import", "a.b.c", "-", "@"]
+
+
+def probe_odd_event_ids(seed, n):
+    """C13 for events whose id is not a Python identifier (`a.to(b, event="order.paid")`, a keyword, a dotted name):
+    the same machine written with identifier ids must behave the same under every calling style — send(name),
+    getattr(sm, name)(), the item of `events` / `allowed_events`, the trigger bound onto another object"""
+    import random
+    import warnings
+    from statemachine import State, StateMachine
+
+    rng = random.Random(f"{seed}:C13:odd")
+    fails = []
+    for i in range(n):
+        nst = rng.randint(2, 4)
+        nev = rng.randint(1, 3)
+        odd = rng.sample(ODD_IDS, nev)
+        plain = [f"ev{j}" for j in range(nev)]
+        trans = [(j, (j + 1) % nst, rng.randrange(nev)) for j in range(nst)]       # a ring: everything connected
+        trans += [(rng.randrange(nst), rng.randrange(nst), rng.randrange(nev)) for _ in range(rng.randint(0, 4))]
+        how = rng.choice(["inline", "attr", "list"])
+        allow = rng.random() < 0.4
+        ops = [(rng.randrange(nev), rng.choice(["send", "method", "events", "allowed", "bound"])) for _ in range(rng.randint(3, 8))]
+
+        def run(names):
+            states = [State(f"S{j}", initial=(j == 0)) for j in range(nst)]
+            ns = {f"s{j}": st for j, st in enumerate(states)}
+            per = {}
+            for (a, b, e) in trans:
+                if how == "attr":
+                    tl = states[a].to(states[b])
+                    per[e] = (per[e] | tl) if e in per else tl
+                elif how == "list":
+                    states[a].to(states[b], event=[names[e]])
+                else:
+                    states[a].to(states[b], event=names[e])
+            for e, tl in per.items():
+                ns[names[e]] = tl
+            out = []
+            try:
+                with warnings.catch_warnings():
+                    warnings.simplefilter("ignore")
+                    cls = type(StateMachine)("Odd", (StateMachine,), ns)
+                    sm = cls(allow_event_without_transition=allow)
+
+                    class Other:
+                        pass
+                    other = Other()
+                    sm.bind_events_to(other)
+            except Exception as ex:  # noqa: BLE001
+                return [("construct", type(ex).__name__)]
+            idx = {nm: k for k, nm in enumerate(names)}
+            out.append(("events", [idx.get(ev.id, ev.id) for ev in cls.events]))
+            for (e, style) in ops:
+                nm = names[e]
+                try:
+                    if style == "send":
+                        sm.send(nm)
+                    elif style == "method":
+                        getattr(sm, nm)()
+                    elif style == "events":
+                        [ev for ev in sm.events if ev.id == nm][0].__get__(sm, cls)()
+                    elif style == "allowed":
+                        cand = [ev for ev in sm.allowed_events if ev.id == nm]
+                        if cand:
+                            cand[0]()
+                        else:
+                            sm.send(nm)
+                    else:
+                        getattr(other, nm)()
+                    res = "ok"
+                except Exception as ex:  # noqa: BLE001
+                    res = type(ex).__name__
+                try:
+                    al = sorted(idx.get(ev.id, ev.id) for ev in sm.allowed_events)
+                except Exception as ex:  # noqa: BLE001
+                    al = type(ex).__name__
+                out.append((e, style, res, sm.current_state.id, al))
+            return out
+        a, b = run(plain), run(odd)
+        if a != b:
+            fails.append(f"odd event ids {odd} ({how}, allow={allow}), transitions {trans}: with identifier ids {a}, "
+                         f"with these ids {b}")
+            if len(fails) >= 3:
+                break
+    return fails
+
+
 def run(ctx):
     lean_obligations(ctx)
+    po = safe_probe(probe_odd_event_ids, ctx.seed, 60 if ctx.tier == "quick" else 1500)
+    ctx.coverage["odd_event_id_machines"] = 60 if ctx.tier == "quick" else 1500
+    if po:
+        ctx.violation(ctx.write_replay("odd_event_ids.txt", "\n".join(po) + "\n"), po[0][:200])
     pe = safe_probe(probe_equal_machines, ctx.seed)
     ctx.coverage["equal_machines_cases"] = 40
     if pe:
